@@ -59,7 +59,7 @@ def write_cfg(path, consts, fac="UStdFacR", module_consts=()):
 
 PARSER_REPAIRED = {"StaleSkip": "FALSE", "ParenReusesSkip": "FALSE", "EatIgnoresSkip": "FALSE", "RelabelInsteadOfPop": "FALSE",
                    "TokensAreResults": "FALSE"}
-DEFAULT_CONSTS = {"ZeroPowEarlyExit": "FALSE", "ZeroEntriesKept": "FALSE"}
+DEFAULT_CONSTS = {"ZeroPowEarlyExit": "FALSE", "ZeroEntriesKept": "FALSE", "Temperature": "FALSE"}
 
 
 def validate(chk, path, name, module="Trace_Lang", consts=None, fac="UStdFacR", observed=None, chunk=1200, jobs=12,
